@@ -131,8 +131,19 @@ def _parse_to_ast(
         )
 
     # postcondition: we have used all the hex strings found by the
-    # pre-parser
-    assert len(pre_parser.hex_string_locations) == 0
+    # pre-parser. a location is left over when the python parser did not
+    # produce a string constant at that position (a hex string adjacent to
+    # another string literal is concatenated with it; `x` followed by a
+    # bytes literal)
+    if len(pre_parser.hex_string_locations) != 0:
+        lineno, col_offset = pre_parser.hex_string_locations[0]
+        raise SyntaxException(
+            "Invalid hex string literal (hex strings cannot be combined with "
+            "adjacent string or bytes literals)",
+            vyper_source,
+            lineno,
+            col_offset,
+        )
 
     # Convert to Vyper AST.
     module = vy_ast.get_node(py_ast)
@@ -339,6 +350,16 @@ class AnnotatingVisitor(python_ast.NodeTransformer):
         the pre-parser
         """
         key = (node.lineno, node.col_offset)
+        if key not in self._pre_parser.for_loop_annotations:
+            # the positions recorded by the pre-parser and the positions of
+            # the re-parsed source disagree (see visit_Expr)
+            raise SyntaxException(
+                "Invalid syntax (unsupported whitespace or line continuation "
+                "before this statement?)",
+                self._source_code,
+                node.lineno,
+                node.col_offset,
+            )
         annotation_tokens = self._pre_parser.for_loop_annotations.pop(key)
 
         if not annotation_tokens:
